@@ -19,9 +19,17 @@ func init() {
 func Harness_C03_stops() {
 	R := vr.Param("R", 2)
 	hdr := []string{"stop_id", "stop_name", "parent_station"}
+	types := vr.Param("TYPES", 0) == 1
+	if types {
+		hdr = append(hdr, "location_type")
+	}
 	var rows [][]string
 	for i := 0; i < R; i++ {
-		rows = append(rows, []string{vr.Str(vr.T("stops.r", i, ".id")), "n", vr.Str(vr.T("stops.r", i, ".parent"))})
+		row := []string{vr.Str(vr.T("stops.r", i, ".id")), "n", vr.Str(vr.T("stops.r", i, ".parent"))}
+		if types {
+			row = append(row, vr.OneOf(vr.T("stops.r", i, ".type"), "", "1", "2"))
+		}
+		rows = append(rows, row)
 	}
 	files := hBase()
 	files["stops.txt"] = vr.File{Name: "stops.txt", Header: hdr, Rows: rows}
